@@ -191,7 +191,33 @@ def monotonic(chk):
             chk.violation("monotonic:sandbox-callable-after-:sandbox:%s:%s" % (a, b),
                           "after (sandbox :%s) with the :sandbox capability disabled, (sandbox :%s) returned %s flags %d->%d" % (
                               a, b, ok, f1, f2), "(sandbox :%s) (sandbox :%s)\n" % (a, b))
-    chk.part("monotonic", pairs=len(res))
+    # several capabilities named in ONE call: each of them must end up disabled, i.e. the flag word is the union of
+    # the words the single keywords give (the interposer oracle reads the VM's flag word, so a call that sets too few
+    # bits would otherwise go unnoticed)
+    def multi(names):
+        text = "(sandbox %s)\n(print (verif/sbx-flags))\n" % " ".join(":" + n for n in names)
+        return (names, run_script("fast", text, timeout=30))
+    combos = [(a, b) for a in opts for b in opts if a != b] + [tuple(FLAGS), tuple(reversed(FLAGS))]
+    for names, r in pmap(multi, combos):
+        chk.add(evaluations=1, transitions=1)
+        if any(n not in bits for n in names):
+            continue
+        want = 0
+        for n in names:
+            want |= bits[n]
+        call = "(sandbox %s)" % " ".join(":" + n for n in names)
+        if r.rc != 0:
+            chk.violation("multi-keyword:run-failed", "%s: %s" % (call, r.describe()), call + "\n")
+            continue
+        got = int(r.out.decode().split()[0])
+        chk.outcome(("multi", got == want))
+        if got & want != want:
+            missing = [n for n in names if bits[n] & ~got]
+            chk.violation("multi-keyword:capability-left-enabled:%s" % (missing[0] if len(names) == 2 else "many"),
+                          "%s sets flag word %d; the keywords alone give %s, so %s stay(s) enabled" % (
+                              call, got, " ".join("%s=%d" % (n, bits[n]) for n in names[:6]), ", ".join(":" + m for m in missing[:6])),
+                          call + "\n(print (verif/sbx-flags))   # needs vjanet; with plain janet: try the gated functions\n")
+    chk.part("monotonic", pairs=len(res), multi_keyword_calls=len(combos))
 
 
 def main():
